@@ -1,0 +1,29 @@
+//go:build verif
+
+package rollout
+
+import (
+	"sync"
+
+	"github.com/openkruise/rollouts/pkg/util"
+	"sigs.k8s.io/controller-runtime/pkg/controller"
+	"sigs.k8s.io/controller-runtime/pkg/handler"
+)
+
+// VerifSetRuntimeController installs the controller the Rollout reconciler registers dynamic workload watches on and
+// resets the registry of watched workload types to its start-up content (verification harness only; -tags verif).
+func VerifSetRuntimeController(c controller.Controller, h handler.EventHandler) {
+	runtimeController = c
+	workloadHandler = h
+	watchedWorkload = sync.Map{}
+	for _, k := range []string{util.ControllerKindDep.String(), util.ControllerKindSts.String(), util.ControllerKruiseKindCS.String(),
+		util.ControllerKruiseKindSts.String(), util.ControllerKruiseOldKindSts.String(), util.ControllerKruiseKindDS.String()} {
+		watchedWorkload.LoadOrStore(k, struct{}{})
+	}
+}
+
+// VerifWorkloadWatched reports whether the registry holds the workload type.
+func VerifWorkloadWatched(gvk string) bool {
+	_, ok := watchedWorkload.Load(gvk)
+	return ok
+}
